@@ -439,6 +439,12 @@ from . import vocab
 
 from . import inventory
 
+
+def _c17_o2(W, ob):
+    from . import c17 as _m
+    return _m.o2(W, ob)
+
+
 OBLIGATIONS = [
     ('C03.O1', 'status constructors', 'Predicted only from InputQueue::input (sticky prediction = predictor(newest real '
      'input) or default); Confirmed carries the stored input behind the frame equality; Disconnected carries the default.', o1),
@@ -450,6 +456,7 @@ OBLIGATIONS = [
     ('C03.O4', 'last_frame provenance', 'local_connect_status[..].last_frame is stored only from inserted local inputs, '
      'inserted fills, and sequential remote inputs of connected players (paired with add_remote_input); confirmed_frame() '
      'is a min over connected players.', o4),
+    ('C03.O17', 'canonical handle order on both ends of the wire (= C17.O2)', 'a Confirmed input belongs to the player it is attributed to: sender ascending, receiver handles sorted; see C17.O2', _c17_o2),
     ('C03.H', 'helpers the rules above rely on', 'the bodies of the helpers named by this property\'s rules compute what the rules assume (prev_pos, add_input, player_input, confirmed_input); see rules/helpers.py', helpers.bundle('prev_pos', 'add_input', 'player_input', 'confirmed_input')),
     ('C03.O14', 'received bytes decode to what was sent (= C14.O4)', 'see C14.O4: the reader of the run-length layer uses the writer\'s table', _c14_o4, {'deps': True}),
     ('C03.O15', 'wire configuration: reader = writer', 'every bincode site of the crate belongs to one of the two wires (player inputs in InputBytes, whole messages in the UDP socket); within a wire the sites that write (serialize, serialize_into, serialized_size) and the sites that read (deserialize) use the same integer encoding and byte order (top-level bincode functions = fixed-width little-endian; an Options chain is read from its with_* calls): a Confirmed input is the bytes the remote serialised.', o15),
@@ -463,4 +470,5 @@ OBLIGATIONS = [
     ('C03.K', 'call inventory', 'every reviewed call of a function that writes state (tables/call_edges.json, callers in the structs this property\'s rules read) is still made, directly or through helpers: a call deleted as redundant is reported; see rules/inventory.py', inventory.call_rule_for('C03')),
     ('C03.A', 'expression inventory', 'every arithmetic expression handed to a call or stored in a field, and what every closure given to an iterator adaptor / collection method returns, is one of the reviewed expressions of its function (tables/expressions.json; linear / guard normal forms, no local names): a changed literal, operator, operand order, factor, predicate or sort key is reported; see rules/inventory.py', inventory.expr_rule_for('C03')),
     ('C03.P', 'trait-impl inventory', 'each (type, trait) pair among PartialEq / Eq / Hash / Ord / Clone / Default / From / Deref / InputPredictor is derived or hand-written as listed in tables/impls.json: a derive replaced by a hand-written impl (equality by address only, a hash that ignores a field) changes which map keys collide and which inputs match with every call site unchanged; see rules/inventory.py', inventory.impl_rule),
+    ('C03.Z', 'constants and type shapes', 'every named constant keeps its reviewed value and every type its reviewed shape -- variants and fields in order, with their types (tables/shapes.json): a ring size, sentinel, default or wire constant changed by value, a frame or checksum stored in a narrower type, a variant or field added, removed or reordered is reported; see rules/inventory.py', inventory.shape_rule),
 ]
